@@ -695,6 +695,10 @@ def arena(seed):
     ops = ["spawn"]
     ctx.nspawn = 1
     sizes = [0, 1, 7, 17, 33, 64, 255, 1024, 1025, 4096, 65536, 65537]   # odd sizes go through alloc_str
+    if seed % 4 == 0:
+        # every fourth history works with allocations of megabytes (several bumpalo chunks, anything keyed to the arena's
+        # size): the round-6 change C20_V_1 resets the arena early once it holds more than 1 MiB
+        sizes = [0, 33, 65537, (1 << 20) + 1, (1 << 20) + 4096, 2 << 20]
     ops.append(f"addh name=src prio=m params=R:G0:i;Snd:G3,G1 body=alloc:{r.choice(sizes)},send:G1,alloc:{r.choice(sizes)}")
     ops.append(f"addh name=noise prio=m params=R:G1:i;Snd:G3,G2 body=alloc:{r.choice(sizes)},send:G2")
     for i in range(r.randint(1, 4)):
